@@ -982,6 +982,9 @@ fn run_parent(
         println!("KNOWN-FINDING: property={} {} — {} (cases excluded this run: {})", prop.id, k.key, k.what, n);
     }
     if !violations.is_empty() {
+        // one line per distinct failing class (shards often find the same one)
+        let mut seen = HashSet::new();
+        violations.retain(|v| seen.insert(hash_of(&(&v.sub, &v.key))));
         for v in &violations {
             println!("violation in {}: [{}] {}", v.sub, v.key, v.msg);
         }
